@@ -177,8 +177,13 @@ func (t *table) openRowStore(opts *rowStoreOptions) (*rowStore, common.OffsetsBy
 	}
 	rs.fileStore.rs = rs
 
+	// the memstore has to exist before the table can be queried: a query that
+	// arrives before the insert-processing goroutine has started must not find
+	// a nil memstore
+	ms := rs.newMemStore(offsetsBySource)
+	rs.memStore = ms
 	t.db.Go(func(stop <-chan interface{}) {
-		rs.processInserts(offsetsBySource, stop)
+		rs.processInserts(ms, stop)
 	})
 	t.db.Go(rs.removeOldFiles)
 
@@ -241,11 +246,8 @@ func (rs *rowStore) newMemStore(offsetsBySource common.OffsetsBySource) *memstor
 	return &memstore{fields: fields, tree: tree, offsetsBySource: offsetsBySource}
 }
 
-func (rs *rowStore) processInserts(offsetsBySource common.OffsetsBySource, stop <-chan interface{}) {
-	ms := rs.newMemStore(offsetsBySource)
-	rs.mx.Lock()
-	rs.memStore = ms
-	rs.mx.Unlock()
+func (rs *rowStore) processInserts(ms *memstore, stop <-chan interface{}) {
+	offsetsBySource := ms.offsetsBySource
 
 	flushInterval := rs.opts.maxFlushLatency
 	flushTimer := time.NewTimer(flushInterval)
